@@ -23,6 +23,9 @@ CHECKS["C01"] = dict(cat="other", tech="SMT (z3, QF_NRA with guarded division fl
 CHECKS["C02"] = dict(cat="other", tech="SMT (z3, QF_NRA) over the traced IR: reciprocity lemmas on traced conductances, charge identity and uniform state on the traced output, discrete maximum principle by per-argmax case split on the linear system the output satisfies",
    text="Bounded symbolic verification per enumerated structure (as C01, smaller family): z3 proves for all positive parameters and any dt>0 that the traced conductances are reciprocal, that the traced new voltages satisfy the total-charge identity and keep a uniform passive state uniform, and that backward Euler never overshoots (2(N+#bp) arg-max queries on the system the output is shown to satisfy; for jax.sparse the CSR rows from the IR). Current-response reciprocity is direct for <=3 compartments and compositional beyond.",
    note="exact real arithmetic; same stubs as C01; reciprocity for larger instances rests on the symmetric-inverse theorem; dt unbounded above", ref="6 C02")
+CHECKS["C07"] = dict(cat="translation_validation", tech="symbolic execution of the traced integrate/step IR; equality of result DAGs decided structurally (hash-consing) with z3 fallback; numerically different pairs replayed on the real API",
+   text="Each program pair (single call vs split/continued run vs manual init_fn/step_fn stepping vs every checkpoint layout) is traced with all table columns, initial states and stimulus samples symbolic; equality of recordings and returned states is decided for all values by DAG identity or z3. Steps, splits and layouts are enumerated (the bound).",
+   note="exact real arithmetic; spsolve as an uninterpreted deterministic function; longer runs rest on the scan body being the same IR at every step", ref="6 C07")
 NA = {}
 checks = []
 for pid, c in CHECKS.items():
